@@ -77,6 +77,47 @@ static void judge(Out& out, const std::string& cls, int n, long nev, long ncv, b
 static bool herm_ok(long n, long nev, long ncv) { return nev >= 1 && nev <= n - 1 && ncv > nev && ncv <= n; }
 static bool gen_ok(long n, long nev, long ncv) { return nev >= 1 && nev <= n - 2 && ncv >= nev + 2 && ncv <= n; }
 
+
+// ---------------------------------------------------------------- wrapper constructors: every shape, every template variant
+typedef Eigen::Matrix<double, Eigen::Dynamic, Eigen::Dynamic, Eigen::RowMajor> MatR;
+typedef Eigen::Matrix<float, Eigen::Dynamic, Eigen::Dynamic> MatF;
+typedef Eigen::Matrix<std::complex<double>, Eigen::Dynamic, Eigen::Dynamic, Eigen::RowMajor> CMatR;
+typedef Eigen::SparseMatrix<double, Eigen::RowMajor> SpMatR;
+typedef Eigen::SparseMatrix<std::complex<double>> CSpMat;
+typedef Eigen::SparseMatrix<std::complex<double>, Eigen::RowMajor> CSpMatR;
+// r x c matrix; symmetric positive definite (diagonally dominant) when r == c
+static Mat shapemat(int r, int c) { Mat A = Mat::Zero(r, c); for (int i = 0; i < r; i++) for (int j = 0; j < c; j++) A(i, j) = (i == j) ? 3.0 + i : 0.25 / (1 + std::abs(i - j)); return A; }
+struct ShapeSet {     // one r x c matrix in every storage the wrappers' template variants need (built once, outside the measured region)
+    int r, c; Mat d; MatR dr; MatF f; CMat cd; CMatR cdr; SpMat s; SpMatR sr; CSpMat cs; CSpMatR csr;
+    ShapeSet(int r_, int c_) : r(r_), c(c_), d(shapemat(r_, c_)) {
+        dr = d; f = d.cast<float>(); cd = d.cast<std::complex<double>>(); cdr = cd;
+        s = d.sparseView(); s.makeCompressed(); sr = s; sr.makeCompressed(); cs = cd.sparseView(); cs.makeCompressed(); csr = cs; csr.makeCompressed(); }
+};
+static const int SHAPE_MAX = 5;        // rows and cols range over 0..SHAPE_MAX independently
+enum WrapKind { WK_SQUARE = 0, WK_ANY = 1 };
+static void judge_shape(Out& out, const std::string& cls, const std::string& variant, const std::string& shape_text, const std::string& shape_json,
+                        bool want_ok, const Outcome& o) {
+    out.count("oracle_wrapper");
+    std::string rj = "{\"op\":\"wrapper\",\"class\":\"wrapper\",\"wrapper\":\"" + cls + "\",\"variant\":\"" + variant + "\"," + shape_json + "}";
+    std::string who = cls + "<" + variant + ">";
+    if (!want_ok && o.s == "ok") out.fail("wrapper-accept-invalid-shape", who + ": " + shape_text + " accepted (std::invalid_argument required)", rj);
+    else if (!want_ok && o.s != "throw std::invalid_argument") out.fail("wrapper-wrong-exception", who + ": " + shape_text + " rejected with " + o.s + " instead of std::invalid_argument", rj);
+    if (want_ok && o.s != "ok") out.fail("wrapper-reject-valid-shape", who + ": " + shape_text + " rejected (" + o.s + ") although it is in the documented domain", rj);
+    if (o.leaked) out.fail("wrapper-leak", who + ": " + str(o.leaked) + " heap block(s) still live after " + (o.s == "ok" ? "construct+destroy" : "a rejected constructor") + ", " + shape_text, rj);
+}
+template <class Op, class M> static void wrap1(Out& out, const char* cls, const char* variant, WrapKind kind, int r, int c, const M& m) {
+    Outcome o = attempt([&]() { Op op(m); (void) op; });
+    judge_shape(out, cls, variant, "a " + str(r) + "x" + str(c) + " matrix", "\"rows\":" + str(r) + ",\"cols\":" + str(c), kind == WK_ANY || r == c, o);
+    out.corr(std::string("wrap1 ") + cls + " " + variant + " " + str(r) + " " + str(c), o.s);
+}
+template <class Op, class MA, class MB> static void wrap2(Out& out, const char* cls, const char* variant, const ShapeSet& a, const ShapeSet& b, const MA& A, const MB& B) {
+    Outcome o = attempt([&]() { Op op(A, B); (void) op; });
+    judge_shape(out, cls, variant, "A " + str(a.r) + "x" + str(a.c) + ", B " + str(b.r) + "x" + str(b.c),
+                "\"a_rows\":" + str(a.r) + ",\"a_cols\":" + str(a.c) + ",\"b_rows\":" + str(b.r) + ",\"b_cols\":" + str(b.c),
+                a.r == a.c && b.r == a.r && b.c == a.r, o);
+    out.corr(std::string("wrap2 ") + cls + " " + variant + " " + str(a.r) + " " + str(a.c) + " " + str(b.r) + " " + str(b.c), o.s);
+}
+
 int main(int argc, char** argv) {
     Args a(argc, argv); Out out(a.out);
     const int NMAX = 12;
@@ -85,9 +126,12 @@ int main(int argc, char** argv) {
         std::ifstream f(a.replay); std::string t((std::istreambuf_iterator<char>(f)), {});
         auto gi = [&](const char* k, long d) { auto p = t.find(std::string("\"") + k + "\":"); return p == std::string::npos ? d : std::atol(t.c_str() + p + std::strlen(k) + 3); };
         only_n = (int) gi("n", -1); only_nev = gi("nev", 0); only_ncv = gi("ncv", 0);
-        auto p = t.find("\"class\":\""); if (p != std::string::npos) { auto e = t.find('"', p + 9); only_cls = t.substr(p + 9, e - p - 9); }
+        auto p = t.find("\"class\":");      // the replay file is re-serialised by the framework: `"class": "wrapper"` (blank after the colon)
+        if (p != std::string::npos) { auto b = t.find('"', p + 8); if (b != std::string::npos) { auto e = t.find('"', b + 1); if (e != std::string::npos) only_cls = t.substr(b + 1, e - b - 1); } }
     }
+    const bool section_replay = only_cls == "wrapper" || only_cls == "sigma" || only_cls == "geigs" || only_cls == "genop";
     for (int n = 1; n <= NMAX; n++) {
+        if (section_replay) break;
         if (only_n >= 0 && n != only_n) continue;
         Mat A = symmat(n), B = spdmat(n), G = genmat(n); SpMat As = A.sparseView(), Bs = B.sparseView(), Gs = G.sparseView();
         CMat H = A.cast<std::complex<double>>(); if (n > 1) { H(0, 1) += std::complex<double>(0, 0.3); H(1, 0) -= std::complex<double>(0, 0.3); }
@@ -131,39 +175,136 @@ int main(int argc, char** argv) {
             }
         }
     }
-    if (only_n < 0 || only_cls == "wrapper") {
-        // ---- non-square matrices where a square one is required: every shape up to 4x4 with rows != cols
-        for (int r = 1; r <= 4; r++) for (int c = 1; c <= 4; c++) {
-            if (r == c) continue;
-            Mat M = Mat::Zero(r, c); for (int i = 0; i < r; i++) for (int j = 0; j < c; j++) M(i, j) = 1.0 + i + 2 * j;
-            SpMat Ms = M.sparseView(); CMat Mc = M.cast<std::complex<double>>(); Eigen::SparseMatrix<std::complex<double>> Mcs = Mc.sparseView();
-            Mat Sq = spdmat(r); SpMat Sqs = Sq.sparseView();
-            auto W = [&](const char* name, Outcome o) {
-                out.count("oracle_wrapper");
-                std::string rj = std::string("{\"op\":\"wrapper\",\"class\":\"wrapper\",\"wrapper\":\"") + name + "\",\"rows\":" + str(r) + ",\"cols\":" + str(c) + "}";
-                if (o.s == "ok") out.fail("wrapper-accept-nonsquare", std::string(name) + " accepts a " + str(r) + "x" + str(c) + " matrix", rj);
-                else if (o.s != "throw std::invalid_argument") out.fail("wrapper-wrong-exception", std::string(name) + " rejects non-square with " + o.s, rj);
-                if (o.leaked) out.fail("wrapper-leak", std::string(name) + " leaks " + str(o.leaked) + " block(s) when rejecting a non-square matrix", rj);
-            };
-            W("DenseSymMatProd", attempt([&]() { DenseSymMatProd<double> op(M); }));
-            W("DenseHermMatProd", attempt([&]() { DenseHermMatProd<std::complex<double>> op(Mc); }));
-            W("SparseSymMatProd", attempt([&]() { SparseSymMatProd<double> op(Ms); }));
-            W("SparseHermMatProd", attempt([&]() { SparseHermMatProd<std::complex<double>> op(Mcs); }));
-            W("DenseSymShiftSolve", attempt([&]() { DenseSymShiftSolve<double> op(M); }));
-            W("SparseSymShiftSolve", attempt([&]() { SparseSymShiftSolve<double> op(Ms); }));
-            W("DenseGenRealShiftSolve", attempt([&]() { DenseGenRealShiftSolve<double> op(M); }));
-            W("SparseGenRealShiftSolve", attempt([&]() { SparseGenRealShiftSolve<double> op(Ms); }));
-            W("DenseGenComplexShiftSolve", attempt([&]() { DenseGenComplexShiftSolve<double> op(M); }));
-            W("SparseGenComplexShiftSolve", attempt([&]() { SparseGenComplexShiftSolve<double> op(Ms); }));
-            W("DenseCholesky", attempt([&]() { DenseCholesky<double> op(M); }));
-            W("SparseCholesky", attempt([&]() { SparseCholesky<double> op(Ms); }));
-            W("SparseRegularInverse", attempt([&]() { SparseRegularInverse<double> op(Ms); }));
-            W("SymShiftInvert(A nonsquare)", attempt([&]() { SymShiftInvert<double, Eigen::Dense, Eigen::Dense> op(M, Sq); }));
-            W("SymShiftInvert(B nonsquare)", attempt([&]() { SymShiftInvert<double, Eigen::Dense, Eigen::Dense> op(Sq, M); }));
-            W("SymShiftInvert(sparse A nonsquare)", attempt([&]() { SymShiftInvert<double, Eigen::Sparse, Eigen::Sparse> op(Ms, Sqs); }));
+    const bool full = a.replay.empty();
+    if (full || only_cls == "wrapper") {
+        // ---- every wrapper constructor of MatOp/ with EVERY shape rows, cols in 0..SHAPE_MAX (rows and cols independent), in every
+        // template variant that is cheap to instantiate (scalar type, Uplo, storage order); observed: accept / exception type / live blocks.
+        // Documented domain (oracle): square for the 13 symmetric / shift / Cholesky wrappers, any shape for the two general products.
+        // proper shapes first, the degenerate ones (a zero dimension) last: the first failure reported is then the most readable one
+        std::vector<ShapeSet> S; S.reserve((SHAPE_MAX + 1) * (SHAPE_MAX + 1));
+        for (int pass = 0; pass < 2; pass++) for (int r = 0; r <= SHAPE_MAX; r++) for (int c = 0; c <= SHAPE_MAX; c++) if ((pass == 0) == (r > 0 && c > 0)) S.emplace_back(r, c);
+        using cd = std::complex<double>;
+        for (const ShapeSet& x : S) {
+            const int r = x.r, c = x.c;
+            wrap1<DenseSymMatProd<double>>(out, "DenseSymMatProd", "double,Lower,ColMajor", WK_SQUARE, r, c, x.d);
+            wrap1<DenseSymMatProd<double, Eigen::Upper>>(out, "DenseSymMatProd", "double,Upper,ColMajor", WK_SQUARE, r, c, x.d);
+            wrap1<DenseSymMatProd<double, Eigen::Lower, Eigen::RowMajor>>(out, "DenseSymMatProd", "double,Lower,RowMajor", WK_SQUARE, r, c, x.dr);
+            wrap1<DenseSymMatProd<float>>(out, "DenseSymMatProd", "float,Lower,ColMajor", WK_SQUARE, r, c, x.f);
+            wrap1<DenseHermMatProd<cd>>(out, "DenseHermMatProd", "complex,Lower,ColMajor", WK_SQUARE, r, c, x.cd);
+            wrap1<DenseHermMatProd<cd, Eigen::Upper>>(out, "DenseHermMatProd", "complex,Upper,ColMajor", WK_SQUARE, r, c, x.cd);
+            wrap1<DenseHermMatProd<cd, Eigen::Lower, Eigen::RowMajor>>(out, "DenseHermMatProd", "complex,Lower,RowMajor", WK_SQUARE, r, c, x.cdr);
+            wrap1<DenseHermMatProd<double>>(out, "DenseHermMatProd", "double,Lower,ColMajor", WK_SQUARE, r, c, x.d);
+            wrap1<SparseSymMatProd<double>>(out, "SparseSymMatProd", "double,Lower,ColMajor", WK_SQUARE, r, c, x.s);
+            wrap1<SparseSymMatProd<double, Eigen::Upper>>(out, "SparseSymMatProd", "double,Upper,ColMajor", WK_SQUARE, r, c, x.s);
+            wrap1<SparseSymMatProd<double, Eigen::Lower, Eigen::RowMajor>>(out, "SparseSymMatProd", "double,Lower,RowMajor", WK_SQUARE, r, c, x.sr);
+            wrap1<SparseHermMatProd<cd>>(out, "SparseHermMatProd", "complex,Lower,ColMajor", WK_SQUARE, r, c, x.cs);
+            wrap1<SparseHermMatProd<cd, Eigen::Upper>>(out, "SparseHermMatProd", "complex,Upper,ColMajor", WK_SQUARE, r, c, x.cs);
+            wrap1<SparseHermMatProd<cd, Eigen::Lower, Eigen::RowMajor>>(out, "SparseHermMatProd", "complex,Lower,RowMajor", WK_SQUARE, r, c, x.csr);
+            wrap1<DenseSymShiftSolve<double>>(out, "DenseSymShiftSolve", "double,Lower,ColMajor", WK_SQUARE, r, c, x.d);
+            wrap1<DenseSymShiftSolve<double, Eigen::Upper>>(out, "DenseSymShiftSolve", "double,Upper,ColMajor", WK_SQUARE, r, c, x.d);
+            wrap1<DenseSymShiftSolve<double, Eigen::Lower, Eigen::RowMajor>>(out, "DenseSymShiftSolve", "double,Lower,RowMajor", WK_SQUARE, r, c, x.dr);
+            wrap1<SparseSymShiftSolve<double>>(out, "SparseSymShiftSolve", "double,Lower,ColMajor", WK_SQUARE, r, c, x.s);
+            wrap1<SparseSymShiftSolve<double, Eigen::Upper>>(out, "SparseSymShiftSolve", "double,Upper,ColMajor", WK_SQUARE, r, c, x.s);
+            wrap1<SparseSymShiftSolve<double, Eigen::Lower, Eigen::RowMajor>>(out, "SparseSymShiftSolve", "double,Lower,RowMajor", WK_SQUARE, r, c, x.sr);
+            wrap1<DenseGenRealShiftSolve<double>>(out, "DenseGenRealShiftSolve", "double,ColMajor", WK_SQUARE, r, c, x.d);
+            wrap1<DenseGenRealShiftSolve<double, Eigen::RowMajor>>(out, "DenseGenRealShiftSolve", "double,RowMajor", WK_SQUARE, r, c, x.dr);
+            wrap1<SparseGenRealShiftSolve<double>>(out, "SparseGenRealShiftSolve", "double,ColMajor", WK_SQUARE, r, c, x.s);
+            wrap1<SparseGenRealShiftSolve<double, Eigen::RowMajor>>(out, "SparseGenRealShiftSolve", "double,RowMajor", WK_SQUARE, r, c, x.sr);
+            wrap1<DenseGenComplexShiftSolve<double>>(out, "DenseGenComplexShiftSolve", "double,ColMajor", WK_SQUARE, r, c, x.d);
+            wrap1<DenseGenComplexShiftSolve<double, Eigen::RowMajor>>(out, "DenseGenComplexShiftSolve", "double,RowMajor", WK_SQUARE, r, c, x.dr);
+            wrap1<SparseGenComplexShiftSolve<double>>(out, "SparseGenComplexShiftSolve", "double,ColMajor", WK_SQUARE, r, c, x.s);
+            wrap1<SparseGenComplexShiftSolve<double, Eigen::RowMajor>>(out, "SparseGenComplexShiftSolve", "double,RowMajor", WK_SQUARE, r, c, x.sr);
+            wrap1<DenseCholesky<double>>(out, "DenseCholesky", "double,Lower,ColMajor", WK_SQUARE, r, c, x.d);
+            wrap1<DenseCholesky<double, Eigen::Upper>>(out, "DenseCholesky", "double,Upper,ColMajor", WK_SQUARE, r, c, x.d);
+            wrap1<DenseCholesky<double, Eigen::Lower, Eigen::RowMajor>>(out, "DenseCholesky", "double,Lower,RowMajor", WK_SQUARE, r, c, x.dr);
+            wrap1<SparseCholesky<double>>(out, "SparseCholesky", "double,Lower,ColMajor", WK_SQUARE, r, c, x.s);
+            wrap1<SparseCholesky<double, Eigen::Upper>>(out, "SparseCholesky", "double,Upper,ColMajor", WK_SQUARE, r, c, x.s);
+            wrap1<SparseCholesky<double, Eigen::Lower, Eigen::RowMajor>>(out, "SparseCholesky", "double,Lower,RowMajor", WK_SQUARE, r, c, x.sr);
+            wrap1<SparseRegularInverse<double>>(out, "SparseRegularInverse", "double,Lower,ColMajor", WK_SQUARE, r, c, x.s);
+            wrap1<SparseRegularInverse<double, Eigen::Upper>>(out, "SparseRegularInverse", "double,Upper,ColMajor", WK_SQUARE, r, c, x.s);
+            wrap1<SparseRegularInverse<double, Eigen::Lower, Eigen::RowMajor>>(out, "SparseRegularInverse", "double,Lower,RowMajor", WK_SQUARE, r, c, x.sr);
+            wrap1<DenseGenMatProd<double>>(out, "DenseGenMatProd", "double,ColMajor", WK_ANY, r, c, x.d);
+            wrap1<DenseGenMatProd<double, Eigen::RowMajor>>(out, "DenseGenMatProd", "double,RowMajor", WK_ANY, r, c, x.dr);
+            wrap1<SparseGenMatProd<double>>(out, "SparseGenMatProd", "double,ColMajor", WK_ANY, r, c, x.s);
+            wrap1<SparseGenMatProd<double, Eigen::RowMajor>>(out, "SparseGenMatProd", "double,RowMajor", WK_ANY, r, c, x.sr);
+        }
+        // ---- the two-matrix wrapper: the shapes of A and of B vary INDEPENDENTLY (all (SHAPE_MAX+1)^4 pairs), all four dense/sparse
+        // pairings, Uplo and storage-order variants.  Accepted iff A and B are square of the same order.
+        using namespace Eigen;
+        for (const ShapeSet& A : S) for (const ShapeSet& B : S) {
+            wrap2<SymShiftInvert<double, Dense, Dense>>(out, "SymShiftInvert", "dense,dense,Lower,Lower,ColMajor,ColMajor", A, B, A.d, B.d);
+            wrap2<SymShiftInvert<double, Dense, Sparse>>(out, "SymShiftInvert", "dense,sparse,Lower,Lower,ColMajor,ColMajor", A, B, A.d, B.s);
+            wrap2<SymShiftInvert<double, Sparse, Dense>>(out, "SymShiftInvert", "sparse,dense,Lower,Lower,ColMajor,ColMajor", A, B, A.s, B.d);
+            wrap2<SymShiftInvert<double, Sparse, Sparse>>(out, "SymShiftInvert", "sparse,sparse,Lower,Lower,ColMajor,ColMajor", A, B, A.s, B.s);
+            wrap2<SymShiftInvert<double, Dense, Dense, Upper, Upper>>(out, "SymShiftInvert", "dense,dense,Upper,Upper,ColMajor,ColMajor", A, B, A.d, B.d);
+            wrap2<SymShiftInvert<double, Dense, Dense, Lower, Lower, RowMajor, RowMajor>>(out, "SymShiftInvert", "dense,dense,Lower,Lower,RowMajor,RowMajor", A, B, A.dr, B.dr);
+            wrap2<SymShiftInvert<double, Dense, Sparse, Lower, Upper, ColMajor, RowMajor>>(out, "SymShiftInvert", "dense,sparse,Lower,Upper,ColMajor,RowMajor", A, B, A.d, B.sr);
+            wrap2<SymShiftInvert<double, Sparse, Sparse, Upper, Lower, RowMajor, ColMajor>>(out, "SymShiftInvert", "sparse,sparse,Upper,Lower,RowMajor,ColMajor", A, B, A.sr, B.s);
         }
     }
-    if (only_n < 0 || only_cls == "sigma") {
+    if (full || only_cls == "geigs") {
+        // ---- generalized solvers take TWO operators: every pair of sizes (na, nb) in 1..GN, every GEigsMode, (nev, ncv) in [0, max+1]^2.
+        // Documented domain: na == nb and the symmetric range for that n.  Model: regenerated adapter constructor + HermEigsBase guard at the
+        // size the adapter reports (Cholesky / RegularInverse: Bop.rows(); the shift modes: op.rows()).
+        const int GN = 6;
+        for (int na = 1; na <= GN; na++) for (int nb = 1; nb <= GN; nb++) {
+            Mat A = symmat(na), Aspd = spdmat(na), B = spdmat(nb); SpMat As = A.sparseView(), Bs = B.sparseView();
+            using SI = SymShiftInvert<double, Eigen::Dense, Eigen::Dense>;
+            static const char* MODE[5] = {"Cholesky", "RegularInverse", "ShiftInvert", "Buckling", "Cayley"};
+            for (int mode = 0; mode < 5; mode++) {
+                bool reported = false;
+                const long top = std::max(na, nb) + 1;
+                for (long nev = 0; nev <= top; nev++) for (long ncv = 0; ncv <= top; ncv++) {
+                    Outcome o;
+                    if (mode == 0) o = attempt([&]() { DenseSymMatProd<double> op(A); DenseCholesky<double> Bop(B); SymGEigsSolver<DenseSymMatProd<double>, DenseCholesky<double>, GEigsMode::Cholesky> s(op, Bop, nev, ncv); });
+                    else if (mode == 1) o = attempt([&]() { SparseSymMatProd<double> op(As); SparseRegularInverse<double> Bop(Bs); SymGEigsSolver<SparseSymMatProd<double>, SparseRegularInverse<double>, GEigsMode::RegularInverse> s(op, Bop, nev, ncv); });
+                    else if (mode == 2) o = attempt([&]() { SI op(A, Aspd); DenseSymMatProd<double> Bop(B); SymGEigsShiftSolver<SI, DenseSymMatProd<double>, GEigsMode::ShiftInvert> s(op, Bop, nev, ncv, 0.37); });
+                    else if (mode == 3) o = attempt([&]() { SI op(Aspd, A); DenseSymMatProd<double> Bop(B); SymGEigsShiftSolver<SI, DenseSymMatProd<double>, GEigsMode::Buckling> s(op, Bop, nev, ncv, 0.37); });
+                    else o = attempt([&]() { SI op(A, Aspd); DenseSymMatProd<double> Bop(B); SymGEigsShiftSolver<SI, DenseSymMatProd<double>, GEigsMode::Cayley> s(op, Bop, nev, ncv, 0.37); });
+                    out.count("oracle_geigs");
+                    const std::string cls = std::string("SymGEigs") + MODE[mode];
+                    const std::string rj = "{\"op\":\"geigs\",\"class\":\"geigs\",\"mode\":" + str(mode) + ",\"na\":" + str(na) + ",\"nb\":" + str(nb) + ",\"nev\":" + str(nev) + ",\"ncv\":" + str(ncv) +
+                                           ",\"mismatched_operators\":" + str(na != nb ? 1 : 0) + "}";
+                    const std::string args = "op " + str(na) + "x" + str(na) + ", Bop " + str(nb) + "x" + str(nb) + ", nev=" + str(nev) + ", ncv=" + str(ncv);
+                    if (na == nb) {
+                        const bool want = herm_ok(na, nev, ncv);
+                        if (want && o.s != "ok") out.fail("ctor-reject-valid", cls + " rejects documented-valid " + args + ": " + o.s, rj);
+                        if (!want && o.s == "ok") out.fail("ctor-accept-invalid", cls + " accepts invalid " + args, rj);
+                    } else if (o.s == "ok") {
+                        out.count("geigs_mismatch_accepted");
+                        if (!reported) { reported = true; out.fail("ctor-accept-mismatched-operators", cls + " accepts operators of different sizes: " + args + " (std::invalid_argument required)", rj); }
+                    }
+                    if (o.s != "ok" && o.s != "throw std::invalid_argument") out.fail("ctor-wrong-exception", cls + " rejects " + args + " with " + o.s + " instead of std::invalid_argument", rj);
+                    if (o.leaked) out.fail(o.s == "ok" ? "ctor-leak-accepted" : "ctor-leak", cls + ": " + str(o.leaked) + " heap block(s) still live, " + args, rj);
+                    out.corr("geigs_ctor " + str(mode) + " " + str(nev) + " " + str(ncv) + " " + str(na) + " " + str(nb), o.s);
+                }
+            }
+        }
+    }
+    if (full || only_cls == "genop") {
+        // ---- a solver of the general family over a NON-SQUARE general product wrapper (the wrapper itself takes any shape): the solver
+        // needs a square operator.  Model: GenEigsBase guard at n = op.rows().
+        for (int r = 1; r <= SHAPE_MAX + 1; r++) for (int c = 1; c <= SHAPE_MAX + 1; c++) {
+            if (r == c) continue;
+            Mat M = shapemat(r, c); SpMat Ms = M.sparseView();
+            for (int sp = 0; sp < 2; sp++) {
+                bool reported = false;
+                for (long nev = 0; nev <= r + 1; nev++) for (long ncv = 0; ncv <= r + 1; ncv++) {
+                    Outcome o = sp == 0 ? attempt([&]() { DenseGenMatProd<double> op(M); GenEigsSolver<DenseGenMatProd<double>> s(op, nev, ncv); })
+                                        : attempt([&]() { SparseGenMatProd<double> op(Ms); GenEigsSolver<SparseGenMatProd<double>> s(op, nev, ncv); });
+                    out.count("oracle_genop");
+                    const std::string cls = sp == 0 ? "GenEigsSolver<DenseGenMatProd>" : "GenEigsSolver<SparseGenMatProd>";
+                    const std::string rj = "{\"op\":\"genop\",\"class\":\"genop\",\"sparse\":" + str(sp) + ",\"rows\":" + str(r) + ",\"cols\":" + str(c) + ",\"nev\":" + str(nev) + ",\"ncv\":" + str(ncv) + ",\"nonsquare_operator\":1}";
+                    const std::string args = "a " + str(r) + "x" + str(c) + " operator, nev=" + str(nev) + ", ncv=" + str(ncv);
+                    if (o.s == "ok") { out.count("genop_nonsquare_accepted"); if (!reported) { reported = true; out.fail("ctor-accept-nonsquare-operator", cls + " accepts " + args + " (std::invalid_argument required)", rj); } }
+                    else if (o.s != "throw std::invalid_argument") out.fail("ctor-wrong-exception", cls + " rejects " + args + " with " + o.s, rj);
+                    if (o.leaked) out.fail("ctor-leak", cls + ": " + str(o.leaked) + " heap block(s) still live, " + args, rj);
+                    out.corr("gen_ctor " + str(nev) + " " + str(ncv) + " " + str(r), o.s);
+                }
+            }
+        }
+    }
+    if (full || only_cls == "sigma") {
         // ---- sigma = 0 in buckling / Cayley mode; nonzero accepted; shift-invert accepts 0 unless singular
         const int n = 6; Mat A = symmat(n), B = spdmat(n);
         using SI = SymShiftInvert<double, Eigen::Dense, Eigen::Dense>;
